@@ -347,7 +347,7 @@ def chosen_format(tool, args):
     return fmt
 
 
-def classify(tool, args, res, fmt='auto', outfile=None, repo=None):
+def classify(tool, args, res, fmt='auto', outfile=None, repo=None, group=''):
     """None if the outcome is one the property allows, else (key, text).
     res: dict from run_tool / inproc_main.  outfile: path given to -o (content read by caller into res['file'])"""
     if res.get('timeout'):
@@ -372,7 +372,7 @@ def classify(tool, args, res, fmt='auto', outfile=None, repo=None):
             return None        # help / version / tutorial text
         body = res.get('file') if outfile else text
         if body is None:
-            return ('success-without-formula:' + tool, 'exit 0 but the output file was not written')
+            return ('success-without-formula:{}:{}'.format(tool, group.split(':')[0]), 'exit 0 but the output file was not written')
         if outfile and text.strip():
             return ('stray-stdout:' + tool, 'formula sent to a file but stdout has {!r}'.format(text[:80]))
         fmts = [fmt] if fmt else ['dimacs', 'opb', 'latex']
@@ -383,11 +383,14 @@ def classify(tool, args, res, fmt='auto', outfile=None, repo=None):
                 return None
             whys.append(why)
         if body.strip() == '':
-            return ('success-without-formula:' + tool, 'exit status 0 and empty output; stderr: {!r}'.format(err[:160]))
+            return ('success-without-formula:{}:{}'.format(tool, group.split(':')[0]),
+                    'exit status 0 and empty output; stderr: {!r}'.format(err[:160]))
         return ('bad-formula:{}:{}'.format(tool, fmt), 'exit 0 but the strict {} reader rejects the output: {}'.format(fmt, '; '.join(whys)))
     # error exit
     if text.strip():
-        return ('partial-output:' + tool, 'exit {} with {} bytes on stdout: {!r}'.format(rc, len(text), text[:80]))
+        looks = any(re.match(r'(p cnf|\* #variable|\\documentclass|-?\d+( -?\d+)* 0$)', l) for l in text.split('\n'))
+        return ('{}:{}'.format('partial-formula' if looks else 'stdout-on-error', tool),
+                'exit {} with {} bytes of unshielded text on stdout: {!r}'.format(rc, len(text), text[:80]))
     if not err.strip():
         return ('silent-error:' + tool, 'exit {} without any message'.format(rc))
     marks = [MARK[fmt]] if fmt else list(MARK.values())
@@ -568,7 +571,8 @@ CONSUMERS = {
     'bipartite': [['php'], ['php', '--functional', '--onto'], ['subsetcard'], ['subsetcard', '-e']],
     'dag': [['peb'], ['stone', '2'], ['stone', '2', '--sparse', '1']],
 }
-NUMPOOL = {'n': ['-1', '0', '1', '2', '3', '4', '5'], 'p': ['0', '1', '.5', '-0.1', '1.5', 'nan', '1e-1']}
+NUMPOOL = {'n': ['-1', '0', '1', '2', '3', '4'], 'g': ['-1', '0', '1', '2', '3'],
+           'p': ['0', '1', '.5', '-0.1', '1.5', 'nan', '1e-1']}
 
 
 def _mutations(tokens):
@@ -613,10 +617,12 @@ def graph_specs(gtype, thorough, rng):
             if c in ('gnp', 'glrp'):
                 pos_p = 1 if c == 'gnp' else 2
                 pools = [NUMPOOL['p'] if i == pos_p else NUMPOOL['n'] for i in range(nargs)]
+            elif c in ('grid', 'torus'):
+                pools = [NUMPOOL['g']] * nargs
             else:
                 pools = [NUMPOOL['n']] * nargs
             combos = list(itertools.product(*pools))
-            cap = 2500 if thorough else (350 if nargs <= ar else 60)
+            cap = 1300 if thorough else (70 if nargs <= ar else 16)
             if len(combos) > cap:
                 combos = rng.sample(combos, cap)
             for t in combos:
@@ -634,7 +640,7 @@ def graph_option_specs(gtype, rng, thorough):
         for o, ar in GRAPH_OPTS[gtype].items():
             for nargs in range(0, ar + 2):
                 for t in itertools.product(vals, repeat=nargs):
-                    if nargs > 1 and not thorough and rng.random() < 0.6:
+                    if nargs > 1 and rng.random() < (0.5 if thorough else 0.9):
                         continue
                     out.append(b + [o] + list(t))
         # two options, repeated options, options in both orders
@@ -776,9 +782,9 @@ def cnfgen_vectors(tier, seed, tool='cnfgen'):
             add('dimacsfile', ['dimacs', '-'], content)
     # (6) cheap large numbers
     for a in [['randkcnf', '3', '1000000', '3'], ['randkxor', '3', '1000000', '2'], ['randkcnf', '1000000', '5', '1'],
-              ['vdw', '3', '1000000', '2'], ['or', '1000', '1000'], ['and', '1000', '0'], ['php', '1000000', '0'],
-              ['ram', '1000000', '1000000', '3'], ['kclique', '1000000', 'complete', '3'], ['kcolor', '2', 'gnm', '1000', '0'],
-              ['randkcnf', '2', '3', '1000000'], ['cliquecoloring', '0', '1000000', '1'], ['stone', '2', 'path', '1', '--sparse', '1000000'],
+              ['vdw', '3', '1000000', '2'], ['or', '1000', '1000'], ['and', '1000', '0'], ['php', '1000', '0'],
+              ['ram', '1000000', '1000000', '3'], ['kclique', '1000', 'complete', '3'], ['kcolor', '2', 'gnm', '1000', '0'],
+              ['randkcnf', '2', '3', '100'], ['cliquecoloring', '0', '1000', '1'], ['stone', '2', 'path', '1', '--sparse', '1000000'],
               ['tseitin', '1000000', '1000001'], ['op', '1000000', '1000001'], ['subsetcard', '3', '1000000']]:
         add('large', a)
     return V
@@ -827,7 +833,15 @@ def small_tool_vectors(tier, seed):
 
 
 def all_vectors(tier, seed):
-    return cnfgen_vectors(tier, seed, 'cnfgen') + [v for v in cnfgen_vectors(tier, seed, 'pbgen') if '-T' not in v['args'] or v['group'] == 'chain'][:] + small_tool_vectors(tier, seed)
+    """cnfgen: the whole grammar.  pbgen shares helpers and graph arguments with cnfgen but has its own
+    cli(): whole grammar in the thorough tier, every third mutation/graph vector in the quick tier."""
+    V = cnfgen_vectors(tier, seed, 'cnfgen')
+    P = [v for v in cnfgen_vectors(tier, seed, 'pbgen') if '-T' not in v['args']]
+    if tier != 'thorough':
+        P = [v for i, v in enumerate(P) if v['group'] in ('global', 'base', 'help', 'dimacsfile', 'large') or i % 3 == 0]
+    for a in [['php', '2', '1', '-T', 'xor', '2'], ['-T'], ['-of', 'latex', 'php', '2', '-T', 'flip'], ['-T', 'php', '2']]:
+        P.append({'tool': 'pbgen', 'args': a, 'stdin': '', 'group': 'chain'})
+    return V + P + small_tool_vectors(tier, seed)
 
 
 # ----------------------------------------------------------------------------------------
@@ -852,7 +866,7 @@ def eval_vector_inproc(v):
             outfile = args[i + 1]
     if outfile and outfile != '-':
         return v['i'], 'needs-process', False, res['rc']
-    bad = classify(v['tool'], v['args'], res)
+    bad = classify(v['tool'], v['args'], res, group=v.get('group', ''))
     return v['i'], bad, bool(res.get('timeout')), res['rc']
 
 
@@ -876,7 +890,7 @@ def eval_vector_process(v, fixdir, hashseed='0', cwd=None):
                 res['file'] = None
         except OSError:
             res['file'] = None
-    return classify(v['tool'], v['args'], res, outfile=outfile), res
+    return classify(v['tool'], v['args'], res, outfile=outfile, group=v.get('group', '')), res
 
 
 def replay_vector(tool, args, stdin=''):
